@@ -448,6 +448,66 @@ def numeric_option_tests(prog: Program):
     return out
 
 
+# options for which None is a setting of its own, not "use the default"
+NONE_IS_A_MODE = {"subdiv_limit": "None = sample the Liouvillian at the quarter points instead of "
+                                  "integrating it over the half steps"}
+
+
+def none_mode_replacements(prog: Program):
+    """[(unit, statement, parameter)]: on the branch where such an option is None, a name or
+    attribute that carries the option is bound to something else than None."""
+    out, seen_params = [], 0
+    for u in prog.units.values():
+        if isinstance(u.node, ast.Lambda):
+            continue
+        for p_ in [x for x in u.params if x in NONE_IS_A_MODE]:
+            seen_params += 1
+            for st in walk_local(u.node):
+                if not isinstance(st, ast.Assign):
+                    continue
+                carries = [t for t in st.targets
+                           if p_ in ((dotted(t) or "").split(".")[-1])]
+                if not carries:
+                    continue
+                none_branch = False
+                for (t, br) in branch_context(u.node, st):
+                    core, neg = t, False
+                    while isinstance(core, ast.UnaryOp) and isinstance(core.op, ast.Not):
+                        core, neg = core.operand, not neg
+                    if isinstance(core, ast.Compare) and len(core.ops) == 1 \
+                            and isinstance(core.left, ast.Name) and core.left.id == p_ \
+                            and isinstance(core.comparators[0], ast.Constant) \
+                            and core.comparators[0].value is None:
+                        is_none = isinstance(core.ops[0], (ast.Is, ast.Eq)) != neg
+                        if is_none == br:
+                            none_branch = True
+                if none_branch and not (isinstance(st.value, ast.Constant) and st.value.value is None) \
+                        and not (isinstance(st.value, ast.Name) and st.value.id == p_):
+                    out.append((u, st, p_))
+    return out, seen_params
+
+
+def none_mode_rule(prog: Program, chk: Check, rule: str) -> None:
+    chk.rule(rule, "an option for which None is a setting of its own (subdiv_limit = None: sample "
+             "the Liouvillian instead of integrating it) reaches the system's propagators as "
+             "given: nowhere is the None case replaced by a default - otherwise one method "
+             "integrates where the other samples, and time-dependent systems evolve differently",
+             floor=1)
+    hits, n = none_mode_replacements(prog)
+    for (u, st, p_) in hits:
+        chk.saw(u)
+        chk.add(rule, u, f"`{p_}` is None -> {norm(st)[:60]}", False,
+                f"{NONE_IS_A_MODE[p_]}; here the None case is turned into another value", st)
+    chk.add(rule, prog.module("system_dynamics"), f"{n} functions take such an option, "
+            f"{len(hits)} replace its None", True, "")
+    if n < 8:
+        raise AnalysisError(f"{rule}: only {n} functions with a None-is-a-mode option found (floor 8)")
+
+
+def s9(prog: Program, chk: Check) -> None:
+    none_mode_rule(prog, chk, "S9")
+
+
 def s8(prog: Program, chk: Check) -> None:
     chk.rule("S8", "both methods are run with the parameters the caller gave: a numeric option "
              "(subdiv_limit, dkmax, tolerances, step counts) is tested for 'not given' with "
@@ -489,3 +549,6 @@ def run(prog: Program, chk: Check) -> None:
     chk.call(s6, prog, chk)
     chk.call(s7, prog, chk)
     chk.call(s8, prog, chk)
+    chk.call(s9, prog, chk)
+    from rules.c16 import read_only_getters
+    chk.call(read_only_getters, prog, chk, "S10")
